@@ -271,7 +271,11 @@ func (e *Exec) runBlocks(fr *frame) {
 			fr.visits = map[*ssa.BasicBlock]int{}
 		}
 		fr.visits[b]++
-		if fr.visits[b] > maxBlockVisits {
+		limit := maxBlockVisits
+		if fr.fn.Pkg != nil && strings.HasPrefix(fr.fn.Pkg.Pkg.Path(), "verif/harness/props") {
+			limit = 200000 // harness loops are concrete tables
+		}
+		if fr.visits[b] > limit {
 			panic(abortRun{kind: "unwind", msg: fmt.Sprintf("block %d of %s visited more than %d times", b.Index, fr.fn, maxBlockVisits)})
 		}
 		// phis
